@@ -70,6 +70,7 @@ def witnesses(tier, seed):
                 W.append(mk(t, n, strat, band=1))
             for n in (1, 2, 3, 4, 5, 8, 9, 12, 16, 17):
                 W.append(mk_structure(t, n, strat))
+    W += pivot_helper_witnesses(['recon_vec', 'recon_mat', 'apply_mat', 'apply_vec', 'recon2'], tier)
     return group_sort(W)
 
 
